@@ -533,6 +533,7 @@ class SymX:
         self.mutable_sites: set[int] | None = None  # creation sites whose containers are mutated / escape (known after a first pass)
         self._site: ast.AST | None = None
         self._loop_end: State | None = None
+        self._class_consts: dict = {}
 
     # ------------------------------------------------------------------ entry
     def run(self, fi: FuncInfo, args: dict[str, Term] | None = None, self_term: Term | None = None, heap: dict | None = None) -> Trace:
@@ -561,6 +562,7 @@ class SymX:
         self.box_loops = {}
         self.box_init = {}
         self._iter_loops = {}
+        self._class_consts = {}
         self._ids = itertools.count(self.first_id)
         self.notes = []
         self.mutable_sites = sites
@@ -1132,10 +1134,17 @@ class SymX:
         lid = self.fresh()
         loop = Loop(lid, "while", None, None, self.fi, s, early)
 
+        index = self._while_index(s, pre, assigned)
+
         def make(changed: set) -> State:
             b = pre.copy()
             self._havoc_names(b, assigned, lid)
             self._havoc_heap(b, changed, lid)
+            if index is not None:
+                name, start, stop_node = index
+                b.env[name] = ("elem", ("call", ("builtin", "range"), (const(start), self.eval(stop_node, b)), ()), lid)
+                loop.cond = TRUE
+                return b
             c = self.truth(self.eval(s.test, b))
             loop.cond = c
             if c == FALSE:
@@ -1153,6 +1162,28 @@ class SymX:
         if s.orelse:
             post = self._block(s.orelse, post)
         return post
+
+    @staticmethod
+    def _while_index(s: ast.While, pre: State, assigned: set[str]) -> "tuple[str, int, ast.expr] | None":
+        """`i = c; while i < stop: ...; i += 1` (i never assigned otherwise, no continue, stop not changed by the body):
+        i runs through range(c, stop)."""
+        t = s.test
+        if not (isinstance(t, ast.Compare) and len(t.ops) == 1 and isinstance(t.ops[0], (ast.Lt, ast.NotEq)) and isinstance(t.left, ast.Name)):
+            return None
+        name = t.left.id
+        cur = pre.env.get(name)
+        if cur is None or cur[0] != "const" or not isinstance(cur[1], int) or isinstance(cur[1], bool):
+            return None
+        if any(isinstance(n, ast.Continue) for b in s.body for n in _walk_own(b)):
+            return None
+        incs = [st_ for st_ in s.body if isinstance(st_, ast.AugAssign) and isinstance(st_.target, ast.Name) and st_.target.id == name and isinstance(st_.op, ast.Add) and isinstance(st_.value, ast.Constant) and st_.value.value == 1]
+        stores = [n for b in s.body for n in _walk_own(b) if isinstance(n, ast.Name) and n.id == name and isinstance(n.ctx, (ast.Store, ast.Del))]
+        if len(incs) != 1 or len(stores) != 1:
+            return None
+        stop = t.comparators[0]
+        if any(isinstance(n, ast.Name) and n.id in assigned for n in ast.walk(stop)):
+            return None
+        return name, cur[1], stop
 
     def _bind_iteration(self, target: ast.expr, it: Term, st: State, lid: int) -> None:
         """Binds the loop target(s) to symbolic elements of the iterated term."""
@@ -1410,6 +1441,18 @@ class SymX:
             op = _BINOPS.get(type(e.op), "?")
             if l[0] == "const" and r[0] == "const" and op == "+" and type(l[1]) is type(r[1]) and isinstance(l[1], (str, int)):
                 return const(l[1] + r[1])
+            if op == "%" and l[0] == "const" and isinstance(l[1], str) and "%" in l[1]:
+                # old-style formatting with %s placeholders only: the same text as an f-string
+                vals = list(r[1]) if r[0] == "tuple" else [r]
+                pieces = l[1].split("%s")
+                if len(pieces) == len(vals) + 1 and not any("%" in p_ for p_ in pieces) and not any(v_[0] == "star" for v_ in vals):
+                    items_: list[Term] = []
+                    for i_, p_ in enumerate(pieces):
+                        if p_:
+                            items_.append(const(p_))
+                        if i_ < len(vals):
+                            items_.append(vals[i_])
+                    return ("fstr", tuple(items_))
             return ("binop", op, l, r)
         if isinstance(e, ast.UnaryOp):
             x = self.eval(e.operand, st)
@@ -1557,12 +1600,68 @@ class SymX:
             return ("builtin", name)
         return ("unk", name, 0)
 
+    def _class_of_term(self, base: Term) -> "ClassInfo | None":
+        if base[0] in ("new", "cls"):
+            return self.repo.classes.get(base[1])
+        for fr in reversed(self.frames):
+            if fr.self_term is not None and fr.self_term == base and fr.fi.cls is not None:
+                return fr.fi.cls
+        return None
+
+    def _class_constant(self, base: Term, attr: str) -> "Term | None":
+        """`self.NAME` / `Class.NAME` for a class-level assignment of a constant, a display of constants or a simple constructor
+        call (evaluated once, in the module of the class)."""
+        ci = self._class_of_term(base)
+        if ci is None:
+            return None
+        for c in self.repo.mro(ci):
+            if attr in c.methods:
+                return None
+            expr = c.class_attrs.get(attr)
+            if expr is None:
+                continue
+            key = (c.fq, attr)
+            if key in self._class_consts:
+                return self._class_consts[key]
+            ok = all(isinstance(n, (ast.Constant, ast.Dict, ast.Tuple, ast.List, ast.Set, ast.Name, ast.Attribute, ast.Load, ast.Call, ast.UnaryOp, ast.USub, ast.BinOp, ast.Add)) for n in ast.walk(expr))
+            ok = ok and all(not isinstance(n, ast.Call) or (isinstance(n.func, ast.Name) and n.func.id in ("tuple", "frozenset", "list", "dict", "set", "Path", "object")) for n in ast.walk(expr))
+            if not ok:
+                return None
+            probe = FuncInfo(name="<class>", qualname=f"<class {c.name}.{attr}>", node=ast.Lambda(args=ast.arguments(posonlyargs=[], args=[], kwonlyargs=[], kw_defaults=[], defaults=[]), body=expr), module=c.module)
+            env = {}
+            for other, oexpr in c.class_attrs.items():
+                if other != attr and isinstance(oexpr, (ast.Constant, ast.Dict, ast.Tuple)) and (c.fq, other) in self._class_consts:
+                    env[other] = self._class_consts[(c.fq, other)]
+            for other in c.class_attrs:
+                if other != attr and other not in env and any(isinstance(n, ast.Name) and n.id == other for n in ast.walk(expr)):
+                    v_other = self._class_constant(("cls", c.fq), other)
+                    if v_other is not None:
+                        env[other] = v_other
+            self.frames.append(Frame(probe, None))
+            try:
+                v = self.eval(expr, State([env], {}, ()))
+            except AnalysisError:
+                v = None
+            finally:
+                self.frames.pop()
+            if v is not None:
+                self._class_consts[key] = v
+            return v
+        return None
+
     def _module_constant(self, mod, name: str, expr: ast.expr) -> "Term | None":
         """Value of `NAME = Path(".")` / `NAME = ("a", "b")` / `NAME = object()`: side-effect free constructor calls and displays
         of constants, evaluated in the module that defines them."""
         def simple(e: ast.expr) -> bool:
             if isinstance(e, ast.Constant):
                 return True
+            if isinstance(e, ast.BinOp) and isinstance(e.op, ast.Add):
+                return simple(e.left) and simple(e.right)
+            if isinstance(e, ast.Name):
+                other = mod.constants.get(e.id)
+                return other is not None and other is not expr and simple(other)
+            if isinstance(e, ast.JoinedStr):
+                return all(isinstance(v, ast.Constant) or isinstance(v, ast.FormattedValue) and simple(v.value) for v in e.values)
             if isinstance(e, (ast.Tuple, ast.List)):
                 return all(simple(x) for x in e.elts)
             if isinstance(e, ast.Call) and isinstance(e.func, (ast.Name, ast.Attribute)) and not e.keywords:
@@ -1615,10 +1714,15 @@ class SymX:
             meth = self.repo.lookup_method(ci, attr) if ci else None
             if meth is not None:
                 return ("fn", meth.fq)
+        cc = self._class_constant(base, attr)
+        if cc is not None:
+            return cc
         # properties of repo classes
         prop = self._property(base, attr, node)
         if prop is not None and self._may_enter(prop) and len(self.frames) <= self.max_depth and prop.fq not in [f.fi.fq for f in self.frames]:
             res, _ = self._enter(prop, None, base, (), (), st)
+            if "cached_property" in prop.decorators:
+                st.heap[(base, attr)] = res  # later reads return the cached value without running the body again
             return res
         return ("attr", base, attr)
 
@@ -1646,7 +1750,7 @@ class SymX:
         if ci is None:
             return None
         impls = [i for i in self.repo.implementations(ci, attr) if not i.is_abstract]
-        if len(impls) == 1 and impls[0].is_property:
+        if len(impls) == 1 and (impls[0].is_property or "cached_property" in impls[0].decorators):
             return impls[0]
         return None
 
@@ -2098,6 +2202,17 @@ class SymX:
             res = ("elem", args[0], self.fresh())
             self._record("mut", ("builtin", "next"), args[0], "next", args[1:], kwargs, st, call, res)
             return res
+        if name == "getattr" and len(args) in (2, 3):
+            obj, nm = args[0], args[1]
+            if nm[0] == "const" and isinstance(nm[1], str):
+                return self._attr(obj, nm[1], st, None)
+            table = nm[1] if nm[0] == "idx" else None
+            d = (table[3] if table is not None and table[0] == "box" else table) if table is not None else None
+            if d is not None and d[0] == "dict" and d[1] and len(d[1]) <= 6 and all(v_[0] == "const" and isinstance(v_[1], str) for _k, v_ in d[1]):
+                # the attribute name is looked up in a display: each entry may be the one (under `key == entry key`)
+                return phi([(g_, self._attr(obj, v_[1], st, None)) for k_, v_ in d[1] if (g_ := self.truth(("cmp", "==", nm[2], k_))) != FALSE])
+            if nm[0] == "phi" and all(a_[0] == "const" and isinstance(a_[1], str) for _g, a_ in nm[1]):
+                return phi([(g_, self._attr(obj, a_[1], st, None)) for g_, a_ in nm[1]])
         if name == "isinstance" and len(args) == 2:
             return ("call", ("builtin", name), args, kwargs)
         if name == "cast" and len(args) == 2:
